@@ -59,6 +59,8 @@ RtLevelN == {Lv(<<t>>, fs) : t \in {T(B("a.B"), <<>>), T(B("a$b"), <<B("Caused b
 \* ---- mode "text": the line alphabet ---------------------------------------------------------------
 TextLines ==
   {B("a: boom"),                               \* mapped throwable with message
+   B("a: x: y: z"),                            \* message containing ": " (split at the FIRST one)
+   B("Caused by: a: x: y"),
    B("a"),                                     \* mapped throwable
    B("zz.Unknown: x"),                         \* unmapped throwable
    B("Caused by: a: inner"),                   \* mapped cause
